@@ -4,7 +4,10 @@ exit 0  property held on everything explored (KNOWN-FINDING lines may be printed
 exit 1  a line `VIOLATION property=<id> replay=<path>` was printed
 exit 2  machinery failure (TLC error, vacuity guard, binding self-test) - never a property verdict
 """
-import argparse, hashlib, importlib, json, os, sys, time, traceback
+import argparse, hashlib, importlib, json, logging, os, sys, time, traceback, warnings
+
+logging.disable(logging.CRITICAL)      # batchie logs through the logging module; keep check output to verdict lines
+warnings.filterwarnings("ignore")
 
 ROOT = os.path.dirname(os.path.dirname(os.path.abspath(__file__)))
 sys.path.insert(0, ROOT)
